@@ -167,6 +167,24 @@ Theorem C06_sites_select_subtypes : forall gs tr (dom : mdomain) (os : objects) 
    exists t, In (o, t) os /\ subtype (decls gs tr) t ty).
 Proof. exact sites_select_subtypes_lemma. Qed.
 
+(* problem facts / goals / constants and initial fluents on such a domain: accepted iff every argument's declared
+   type is a subtype of the parameter's type at the same position *)
+Theorem C06_sites_fact_accepts_subtypes : forall gs tr (dom : mdomain) objs p args,
+  wf_section gs tr -> parse_types (render gs tr) = Ok (d_types dom) ->
+  (problem_fact dom objs p args = Ok tt <->
+   exists sg tys, dget (d_preds dom) p = Some sg /\ List.length args = List.length sg /\
+                  mapM (type_of_name dom objs) args = Ok tys /\
+                  forall t r, In (t, r) (combine tys (dvalues sg)) -> subtype (decls gs tr) t r).
+Proof. exact site_fact_subtype_lemma. Qed.
+
+Theorem C06_sites_fluent_accepts_subtypes : forall gs tr (dom : mdomain) objs f args,
+  wf_section gs tr -> parse_types (render gs tr) = Ok (d_types dom) ->
+  (problem_fluent dom objs f args = Ok tt <->
+   exists sg tys, dget (d_funcs dom) f = Some sg /\ List.length args = List.length sg /\
+                  mapM (type_of_name dom objs) args = Ok tys /\
+                  forall t r, In (t, r) (combine tys (dvalues sg)) -> subtype (decls gs tr) t r).
+Proof. exact site_fluent_subtype_lemma. Qed.
+
 (* ---------------------------------------------------------------------------------------------- constants (D30) *)
 (* full statement: the objects a quantifier ranges over (the table the pipeline gives to Operator) are the
    problem's objects AND the domain's constants.  FALSE of the code (Model.TypeSites.pipeline_objects). *)
@@ -239,6 +257,8 @@ Print Assumptions C06_site_problem_fact.
 Print Assumptions C06_site_problem_fluent.
 Print Assumptions C06_site_trajectory_fluent.
 Print Assumptions C06_sites_select_subtypes.
+Print Assumptions C06_sites_fact_accepts_subtypes.
+Print Assumptions C06_sites_fluent_accepts_subtypes.
 Print Assumptions C06_quantifier_range_partial.
 Print Assumptions C06_quantifier_range_refuted.
 Print Assumptions C06_subtypeb_is_closure.
